@@ -4,7 +4,7 @@ NOT_BUILT = "check not built yet in this round (design in DESIGN.md section 3); 
 
 
 def fill(claim, na):
-    for p in ["C01", "C02", "C03", "C04", "C06", "C10", "C12", "C13",
+    for p in ["C01", "C02", "C03", "C04",  "C10", "C12", "C13",
               "C15", "C16", "C18"]:
         na(p, NOT_BUILT)
     na("C05", "equality of decoded flux with the sector dump is a statement about decoding arbitrary bit-streams "
@@ -63,3 +63,13 @@ def fill(claim, na):
           "prefix relation itself is not decided. One known finding (0x7F) is listed.",
           "Trusts C stdio return-value semantics and the enumerated clean-end justifications.",
           "DESIGN.md 3/C09")
+    claim("C06",
+          "decoder typestate on the CFG: must-facts with Boolean unit propagation (ID CRC and ID decode before the "
+          "record state, data CRC before a push), path-sensitive tracking of the state variable across loop "
+          "iterations (held ID consumed once), dominance of appends by track validation, sibling rule on the flux "
+          "adapters (address-based lookup), bounded ID-to-data-mark distance in the FM decoder",
+          "Decides the gating clauses for every bit-stream: no sector is yielded without both CRC checks having "
+          "succeeded on that path, and the image adapters look sectors up by recorded address. Does not decide what "
+          "scan_for finds in the bits (sync constants, bit order).",
+          "Trusts the CRC helpers' arithmetic (checked under C02) and clang's CFG.",
+          "DESIGN.md 3/C06")
